@@ -374,7 +374,21 @@ def check_lossless(f, g, e0, eps, lr, A, w):
         v = complex(v)
         if rel(v, want) > 1e-12 or not (min(s.real, n.real) * (1 - 1e-12) <= v.real <= max(s.real, n.real) * (1 + 1e-12)):
             out.append(("mixture:" + name, f"mixture({name}, w={w})={v}, components {s}, {n}", v, want))
+    # the same mixture carried by a layer (shapes and ratio as layer attributes, the fractional volume being the layer's)
+    lay = _mix_layer(w)
+    fl = float(lay.frac_volume)
+    sl, nl = complex(m.polder_van_santen(fl, e0, eps)), complex(m.polder_van_santen(fl, e0, eps, inclusion_shape="random_needles"))
+    v = complex(m.polder_van_santen(e0=e0, eps=eps, layer_to_inject=lay))
+    if rel(v, w * sl + (1 - w) * nl) > 1e-12:
+        out.append(("mixture:layer", f"mixture carried by a layer (shapes ('spheres', 'random_needles'), mixing_ratio={w}, f={fl})={v}, components {sl}, {nl}",
+                    v, w * sl + (1 - w) * nl))
     return out
+
+
+def _mix_layer(w):
+    """a snow layer carrying the mixture (a tuple of shapes and the ratio of the first one) as attributes"""
+    from smrt.inputs.make_medium import make_snow_layer
+    return make_snow_layer(1.0, "homogeneous", density=300.0, temperature=260.0, inclusion_shape=("spheres", "random_needles"), mixing_ratio=w)
 
 
 def check_depol_one():
@@ -420,6 +434,30 @@ def check_three(inp):
     return None
 
 
+def check_three_array(inp):
+    """the three-component solvers on an array of fractions (a layered profile, in any order): every element is what the scalar call gives"""
+    m = gmf()
+    cz = lambda p: complex(p[0], p[1]) if p[1] != 0 else float(p[0])
+    e0, e1, e2 = cz(inp["eps0"]), cz(inp["eps1"]), cz(inp["eps2"])
+    fs_ = np.array(inp["fs"], dtype=float)
+    z = np.zeros_like(fs_)
+    A, other = [1 / 3] * 3, [0.2, 0.3, 0.5]
+    if inp["solver"] == "spherical":
+        call = lambda f1, f2: m.polder_van_santen_three_spherical_components(f1, f2, e0, e1, e2)
+    else:
+        call = lambda f1, f2: m.polder_van_santen_three_components(f1, f2, e0, e1, e2, A, other)
+    try:
+        got = np.asarray(call(fs_.copy(), z.copy()), dtype=complex).ravel()
+    except Exception:  # noqa   (arrays not accepted: a loud refusal)
+        return None
+    ref = np.array([complex(call(float(f), 0.0)) for f in fs_])
+    if got.shape != ref.shape or max(rel(complex(a), complex(b)) for a, b in zip(got, ref)) > RT3:
+        k = int(np.argmax([rel(complex(a), complex(b)) for a, b in zip(got, ref)])) if got.shape == ref.shape else 0
+        return ("three_components:array", f"{inp['solver']} three-component solver on the fractions {inp['fs']} (f2 = 0, eps0={e0}, eps1={e1}): element {k} is "
+                f"{got[k] if got.shape == ref.shape else got.shape} but the scalar call gives {ref[k]}", str(got.tolist()), str(ref.tolist()))
+    return None
+
+
 def oracle(ctx, hints, effort):
     rng = ctx.np
     findings, evals = {}, 0
@@ -448,6 +486,8 @@ def oracle(ctx, hints, effort):
         f, g = sorted([gen_f(rng), gen_f(rng)])
         e0, eps = float(rng.uniform(1, 90)), float(rng.uniform(1, 90))
         lr, A, w = gen_lr(rng), [float(v) for v in rng.dirichlet(np.ones(3))], float(rng.uniform(0, 1))
+        if _ < 4:
+            w = [0.0, 1.0, 0.0, 1.0][_]           # the end points of the mixing ratio: all of the last / of the first shape
         inp = {"kind": "lossless", "f": f, "g": g, "e0": e0, "eps": eps, "lr": lr, "A": A, "w": w}
         record(check_lossless(f, g, e0, eps, lr, A, w), inp); evals += 1
     # three components
@@ -457,6 +497,13 @@ def oracle(ctx, hints, effort):
         p = lambda: (lambda z: [z.real, z.imag])(gen_eps(rng)[1])
         three.append({"solver": ["spherical", "general"][int(rng.integers(0, 2))], "f": f, "which": int(rng.integers(1, 3)),
                       "eps0": p(), "eps1": p(), "eps2": p(), "A": ["iso", "needles"][int(rng.integers(0, 2))]})
+    for solver in ("spherical", "general"):
+        for media in (([3.17, 0.002], [60.0, 35.0]), ([1.0, 0.0], [3.18, 0.001]), ([2.0, 0.0], [80.0, 5.0])):
+            inp = {"kind": "three-array", "solver": solver, "eps0": media[0], "eps1": media[1], "eps2": [5.0, 1.0], "fs": [0.05, 0.9, 0.1, 0.7, 0.3, 0.95, 0.02]}
+            evals += 1
+            r = check_three_array(inp)
+            if r is not None and r[0] not in findings:
+                findings[r[0]] = Finding(r[0], r[1], inp, r[2], r[3])
     for inp in three:
         evals += 1
         r = check_three(inp)
@@ -474,6 +521,9 @@ def replay(inp, rp=None):
     cz = lambda p: complex(p[0], p[1])
     if k == "three":
         r = check_three(inp)
+        return Finding(r[0], r[1], inp, r[2], r[3]) if r else None
+    if k == "three-array":
+        r = check_three_array(inp)
         return Finding(r[0], r[1], inp, r[2], r[3]) if r else None
     if k == "pvs":
         items = check_pvs(inp["f"], cz(inp["e0"]), cz(inp["eps"]), inp["shape"])
